@@ -242,7 +242,17 @@ def install_solver_monitor(direct_tol=1e-11):
                     if _n in ("CG", "LDAWrapper"):
                         tol = 10 * float(getattr(self, "tol", 1e-7))
                         res = float(np.max(np.linalg.norm(M @ x - b, axis=0) / nb))
-                        bad = not res <= max(tol, 1e-9)
+                        lim = max(tol, 1e-9)
+                        if x0 is not None and _n == "CG":
+                            # an iterative solve cannot get below the rounding level of its first residual, eps*|A||x0| (a warm start
+                            # orders of magnitude larger than the solution - floating point, not a defect of the solver)
+                            try:
+                                Ad = M.toarray() if sps.issparse(M) else np.asarray(M)
+                                x0n = float(np.max(np.linalg.norm(np.asarray(x0).reshape(Ad.shape[0], -1), axis=0)))
+                                lim = max(lim, 50 * np.finfo(float).eps * float(np.linalg.norm(Ad, 2)) * x0n / float(np.min(nb)))
+                            except Exception:
+                                pass
+                        bad = not res <= lim
                     else:
                         res = backward_error(M, x, b)
                         bad = not res <= direct_tol
